@@ -137,6 +137,8 @@ NAME_ALPHABET = "abcxyz_019 %{}:.-#'\\é€"
 
 
 def gen_name(rng, i):
+    if rng.random() < 0.15:
+        return rng.choice(("hl_reserved", "pad", "f0"))        # the same description on several fields (padding entries)
     k = rng.randrange(6)
     if k == 0:
         return "f%d" % i
